@@ -2,7 +2,9 @@ package main
 
 import (
 	"fmt"
+	"io"
 	"net"
+	"os"
 	"strconv"
 	"strings"
 	"time"
@@ -10,6 +12,7 @@ import (
 	"github.com/samaritan-proxy/samaritan/host"
 	pbredis "github.com/samaritan-proxy/samaritan/pb/config/protocol/redis"
 	"github.com/samaritan-proxy/samaritan/pb/config/service"
+	"github.com/samaritan-proxy/samaritan/proc"
 	"github.com/samaritan-proxy/samaritan/proc/redis"
 
 	"verifharness/hx"
@@ -435,12 +438,86 @@ func (c *c20) execCx(f []string) string {
 	return last
 }
 
+// c20.names   two TCP services whose names differ only in "." against "_" run side by side (the controller keys them by name); service
+// A serves one connection, which is closed; service B holds one open.  A is quiescent.
+//
+//	-> A: active=<downstream gauge> open=<downstream total - destroyed> up-active=<upstream gauge> up-open=<upstream total - destroyed>
+var c20namesSeq int
+
+func (c *c20) execNames() string {
+	c20namesSeq++
+	nameA := fmt.Sprintf("verif.c20n.%d.%d", os.Getpid(), c20namesSeq)
+	nameB := fmt.Sprintf("verif.c20n_%d.%d", os.Getpid(), c20namesSeq)
+	be, err := hx.NewBackend()
+	if err != nil {
+		return "sockerr"
+	}
+	defer be.Close()
+	go func() {
+		for bc := range be.Conns {
+			go func(bc net.Conn) { io.Copy(bc, bc); bc.Close() }(bc)
+		}
+	}()
+	mk := func(name string) (proc.Proc, error) {
+		return hx.NewTCPProcNamed(name, service.LoadBalancePolicy_ROUND_ROBIN, time.Minute, 0, []*host.Host{host.New(be.Addr)})
+	}
+	pa, err := mk(nameA)
+	if err != nil {
+		return "procerr"
+	}
+	defer pa.Stop()
+	pb, err := mk(nameB)
+	if err != nil {
+		return "procerr"
+	}
+	defer pb.Stop()
+	scope := "service." + strings.Replace(nameA, ".", "_", -1) + "."
+	defer hx.DropScopes(scope)
+	defer hx.DropScopes("service." + strings.Replace(nameB, ".", "_", -1) + ".")
+	m := hx.Metrics(scope)
+	echo := func(addr string) (net.Conn, bool) {
+		cn, err := net.DialTimeout("tcp", addr, time.Second)
+		if err != nil {
+			return nil, false
+		}
+		cn.Write([]byte("x"))
+		cn.SetReadDeadline(time.Now().Add(2 * time.Second))
+		b := make([]byte, 1)
+		if _, err := io.ReadFull(cn, b); err != nil {
+			cn.Close()
+			return nil, false
+		}
+		return cn, true
+	}
+	ca, ok := echo(pa.Address())
+	if !ok {
+		return "sockerr"
+	}
+	ca.Close()
+	for i := 0; i < 300 && m("downstream.cx_destroy_total") < 1; i++ {
+		time.Sleep(5 * time.Millisecond)
+	}
+	cb, ok := echo(pb.Address())
+	if !ok {
+		return "sockerr"
+	}
+	defer cb.Close()
+	time.Sleep(50 * time.Millisecond)
+	return fmt.Sprintf("active=%d open=%d up-active=%d up-open=%d", m("downstream.cx_active"), m("downstream.cx_total")-m("downstream.cx_destroy_total"),
+		m("upstream.cx_active"), m("upstream.cx_total")-m("upstream.cx_destroy_total"))
+}
+
 func (c *c20) Exec(op string) string {
 	f := hx.Fields(op)
+	if len(f) == 1 && f[0] == "c20.names" {
+		return recoverStr(c.execNames)
+	}
 	if len(f) < 2 {
 		return "bad-op"
 	}
 	switch f[0] {
+	case "c20.names":
+		return recoverStr(c.execNames)
 	case "c20.rq":
 		return recoverStr(func() string { return c.execRq(f[1:]) })
 	case "c20.cx":
